@@ -933,11 +933,22 @@ def _same_loops_in(l1, l2, whole_values, why, _depth):
         if why is not None and not why:
             why.append(msg)
         return False
+    pending = None
     if not same(l1.test, l2.test, whole_values):
         LAST_DIFFERENCE[:] = [(l1.test, l2.test, whole_values)]
-        return no(f"loop condition {norm(l1.test)!r}  vs  {norm(l2.test)!r}")
-    if not same_items(l1.items, l2.items, whole_values, why, _depth):
-        return False
+        msg = f"loop condition {norm(l1.test)!r}  vs  {norm(l2.test)!r}"
+        if refute(l1.test, l2.test, whole_values) is not None:
+            return no(msg)
+        # (not the same formula, but no numbers on which the two tests differ: a difference of shape or of amounts further on decides)
+        pending = (msg, (l1.test, l2.test, whole_values))
+    sub = []
+    if not same_items(l1.items, l2.items, whole_values, sub, _depth):
+        if pending is None or not LAST_DIFFERENCE or refute(*LAST_DIFFERENCE[0]) is not None:
+            return no(sub[0] if sub else "the bodies of the loops differ")
+        # (the bodies differ in a way numbers do not show either: the first difference stands)
+    if pending is not None:
+        LAST_DIFFERENCE[:] = [pending[1]]
+        return no(pending[0])
     c1, c2 = _loop_refs(l1), _loop_refs(l2)
     if len(c1) != len(c2):
         del LAST_DIFFERENCE[:]
